@@ -682,6 +682,21 @@ func cfLogResp(r *cfResp, cl, blen int64, bcont string, items int64, mv int64) e
 	return e
 }
 
+// cfFrames: the source positions inside the code under test of a panic's stack (stable across runs).
+func cfFrames(stack string) string {
+	var out []string
+	for _, l := range strings.Split(stack, "\n") {
+		l = strings.TrimSpace(l)
+		if i := strings.Index(l, "/ociregistry/"); i >= 0 && strings.Contains(l, ".go:") {
+			if j := strings.IndexByte(l[i:], ' '); j > 0 {
+				l = l[:i+j]
+			}
+			out = append(out, l[i+1:])
+		}
+	}
+	return cfTrunc(strings.Join(out, " < "), 600)
+}
+
 func cfTrunc(s string, n int) string {
 	s = strings.ToValidUTF8(s, "?")
 	if len(s) > n {
@@ -865,7 +880,7 @@ func (rn *cfRunner) run(id int, s *cfScenario) {
 		go func() {
 			defer func() {
 				if p := recover(); p != nil {
-					done <- cfOutcome{panicMsg: cfTrunc(fmt.Sprint(p), 300), stack: cfTrunc(string(debug.Stack()), 1500)}
+					done <- cfOutcome{panicMsg: cfTrunc(fmt.Sprint(p), 300), stack: cfFrames(string(debug.Stack()))}
 				}
 			}()
 			done <- do()
@@ -1354,6 +1369,10 @@ func cfCmd(args []string) error {
 		}
 		rn.run(i+1, s)
 		ran++
+		if rn.hangs >= 5 {
+			// every hang costs a watchdog period and leaves a goroutine behind: what is recorded is enough for a verdict
+			break
+		}
 	}
 	bw.Flush()
 	res, _ := json.Marshal(ev{"scenarios": ran, "calls": rn.calls, "requests": rn.reqs, "panics": rn.panics, "timeouts": rn.hangs})
